@@ -47,6 +47,8 @@ impl crate::qustate::QuState for StabilizerState
     fn apply_gate<G>(&mut self, gate: &G, bits: &[usize]) -> crate::error::Result<()>
     where G: crate::gates::Gate + ?Sized
     {
+        gate.check_nr_bits(bits.len())?;
+
         for t in self.tableaus.iter_mut()
         {
             t.apply_gate(gate, bits)?;
@@ -74,6 +76,7 @@ impl crate::qustate::QuState for StabilizerState
             return Err(crate::error::Error::InvalidNrControlBits(control.len(),
                 self.nr_shots, String::from(gate.description())));
         }
+        gate.check_nr_bits(bits.len())?;
 
         let ranges = crate::qustate::collect_conditional_ranges(&self.counts,
             control);
